@@ -100,7 +100,7 @@ Definition akind_of_elem (e : gtype) : option akind :=
 (* Library constants                                                          *)
 
 Definition zero_time_text : bytes :=           (* compact_time.AsCompactTime(time.Time{}).String() *)
-  [48;48;48;49;45;48;49;45;48;49;47;48;48;58;48;48;58;48;48].   (* "0001-01-01/00:00:00" *)
+  [49;45;48;49;45;48;49;47;48;48;58;48;48;58;48;48].   (* "1-01-01/00:00:00" *)
 Definition zero_ctime_text : bytes :=          (* compact_time.Time{}.String() *)
   [60;122;101;114;111;32;116;105;109;101;32;118;97;108;117;101;62].   (* "<zero time value>" *)
 Definition nan32 : N := 0x7fc00000.
@@ -600,7 +600,10 @@ Section Lib.
               | _ => CErr
               end
     | TMedia => match s with BMedia mt d => COk (VMedia false mt d) | _ => CErr end
-    | TNode | TEdge => COut           (* the throw-away node / edge builder touches the builder stack *)
+    | TEdge =>
+        (* a throw-away edgeBuilder stores the value as its first component; nothing else happens *)
+        match conv_iface s with COk _ => COk (zero_of t) | other => other end
+    | TNode => COut                   (* the throw-away nodeBuilder pushes its children builder on the stack *)
     end.
 
   (* ----------------------------------------------------------------------- *)
@@ -676,43 +679,47 @@ Section Lib.
     end.
 
   (* reflect.Value.Addr on the finished container handed to a ptrBuilder: the slice and map
-     builders hand over values that are not addressable *)
+     builders, and a ptrBuilder further in, hand over values that are not addressable *)
   Definition addressable (e : gtype) : bool :=
     match e with
-    | TSlice _ | TNumSlice _ _ | TMap _ _ | TIface => false
+    | TSlice _ | TNumSlice _ _ | TMap _ _ | TIface | TPtr _ => false   (* TPtr: the inner ptrBuilder hands over value.Addr() *)
     | _ => true
     end.
 
-  (* a finished value x reaches the builder on top of [stk]: BuildFromXxx has converted it, or a
-     child container has ended (NotifyChildContainerFinished) *)
-  Fixpoint deliver (stk : list bframe) (x : gval) (st : bstate) {struct stk} : bres :=
+  (* a finished value x reaches the builder on top of [stk]: BuildFromXxx has converted it
+     (raw = false), or a child container has ended (NotifyChildContainerFinished, raw = true: a
+     container stored into an interface{} slot becomes the dynamic value of the interface) *)
+  Definition wrap_for (t : gtype) (raw : bool) (x : gval) : gval :=
+    if raw then match t with TIface => VIface x | _ => x end else x.
+  Fixpoint deliver (stk : list bframe) (raw : bool) (x : gval) (st : bstate) {struct stk} : bres :=
     match stk with
     | [] => RPanic
     | fr :: below =>
       match fr with
-      | BTop t => ROk (with_object st stk x)
-      | BSlice e acc => ROk (with_stack st (BSlice e (acc ++ [x]) :: below))
+      | BTop t => ROk (with_object st stk (wrap_for t raw x))
+      | BSlice e acc => ROk (with_stack st (BSlice e (acc ++ [wrap_for e raw x]) :: below))
       | BArr' n e acc =>
-          if (length acc <? N.to_nat n)%nat then ROk (with_stack st (BArr' n e (acc ++ [x]) :: below))
+          if (length acc <? N.to_nat n)%nat then ROk (with_stack st (BArr' n e (acc ++ [wrap_for e raw x]) :: below))
           else RPanic                                           (* container.Index out of range *)
-      | BMap k v kvs None => ROk (with_stack st (BMap k v kvs (Some x) :: below))
+      | BMap k v kvs None => ROk (with_stack st (BMap k v kvs (Some (wrap_for k raw x)) :: below))
       | BMap k v kvs (Some key) =>
-          if gkey_known key then ROk (with_stack st (BMap k v (map_set key x kvs) None :: below))
+          if gkey_known key then ROk (with_stack st (BMap k v (map_set key (wrap_for v raw x) kvs) None :: below))
           else ROut
-      | BStruct t cur (Some (p, ft)) false => ROk (with_stack st (BStruct t (set_path p x cur) (Some (p, ft)) true :: below))
+      | BStruct t cur (Some (p, ft)) false =>
+          ROk (with_stack st (BStruct t (set_path p (wrap_for ft raw x) cur) (Some (p, ft)) true :: below))
       | BStruct _ _ _ _ => ROut
-      | BPtr e => if addressable e then deliver below (mk_ptr e x) st else RPanic
-      | BNode false _ => ROk (with_stack st (BSlice TIface [] :: BNode true x :: below))
+      | BPtr e => if addressable e then deliver below true (mk_ptr e x) st else RPanic
+      | BNode false _ => ROk (with_stack st (BSlice TIface [] :: BNode true (wrap_for TIface raw x) :: below))
       | BNode true val =>
           (* the children slice has ended: the node is complete *)
           match x with
-          | VSlice _ ch => deliver below (VNode val (VSlice 0 ch)) st
+          | VSlice _ ch => deliver below true (VNode val (VSlice 0 ch)) st
           | _ => RPanic
           end
       | BEdge comps =>
           match comps with
-          | [a; b] => deliver below (VEdge a b x) st
-          | _ => ROk (with_stack st (BEdge (comps ++ [x]) :: below))
+          | [a; b] => deliver below true (VEdge a b (wrap_for TIface raw x)) st
+          | _ => ROk (with_stack st (BEdge (comps ++ [wrap_for TIface raw x]) :: below))
           end
       end
     end.
@@ -768,14 +775,14 @@ Section Lib.
                 (* advanceElem comes before the conversion *)
                 if (length acc <? N.to_nat n)%nat then
                   match conv t s with
-                  | COk x => deliver (bstack st) x st
+                  | COk x => deliver (bstack st) false x st
                   | CErr => RPanic
                   | COut => ROut
                   end
                 else RPanic
             | _, _ =>
                 match conv t s with
-                | COk x => deliver (bstack st) x st
+                | COk x => deliver (bstack st) false x st
                 | CErr => RPanic
                 | COut => ROut
                 end
@@ -805,11 +812,11 @@ Section Lib.
 
   Definition on_end (st : bstate) : bres :=
     match bstack st with
-    | BSlice e acc :: below => deliver below (mk_seq SSlice e acc) st
+    | BSlice e acc :: below => deliver below true (mk_seq SSlice e acc) st
     | BArr' n e acc :: below =>
-        deliver below (mk_seq SArr e (acc ++ repeat (zero_of e) (N.to_nat n - length acc))) st
-    | BMap _ _ kvs _ :: below => deliver below (VMap 0 kvs) st
-    | BStruct _ cur _ _ :: below => deliver below cur st
+        deliver below true (mk_seq SArr e (acc ++ repeat (zero_of e) (N.to_nat n - length acc))) st
+    | BMap _ _ kvs _ :: below => deliver below true (VMap 0 kvs) st
+    | BStruct _ cur _ _ :: below => deliver below true cur st
     | _ => RPanic
     end.
 
